@@ -20,7 +20,7 @@ META = dict(
     technique='symbolic execution (sx proxies) of the real ResponseFuture timer/timeout path over solver-enumerated histories + z3 validity per path',
     bounds=dict(quick='3 hosts, timeout 10 s, speculative executions 0..2 (delay 1 s), <= 4 events + following the timer chain; one later page',
                 thorough='<= 6 events, 2 later pages'),
-    assumptions=['the reactor fires a timer at its deadline', 'query plans are finite'],
+    assumptions=['race jobs: a timer (client-side timeout, speculative execution) may fire on a thread other than the event loop\'s, so it can overlap the handling of a response - Connection.create_timer does not promise otherwise and the driver itself guards _on_timeout with the connection lock; with the bundled reactors timers run on the event-loop thread, for which these schedules are an over-approximation; two responses are never handled at the same time', 'the reactor fires a timer at its deadline', 'query plans are finite'],
     stubs=['transport/timers/executor: harness kit', 'codec: identity', 'retry policy: decision oracle'],
     outside=['timeout=None', 'schema-agreement waits after DDL'],
 )
